@@ -152,6 +152,29 @@ func c05Shapes(c *chk.Ctx, rng interface{ Intn(int) int }) []*spec.Spec {
 		s.Run = spec.Run{Mode: "runto", Targets: []string{"mid", "ps"}}
 		out = append(out, s)
 	}
+	// RunTo across a parameter chain of two hops (ParamSource -> ParamCombinator -> process)
+	{
+		s := mk("runtoparamchain", 2)
+		s.Procs = append(s.Procs, &spec.Proc{Name: "ps1", Kind: spec.KParamSource, Values: []string{"a", "b"}}, &spec.Proc{Name: "ps2", Kind: spec.KParamSource, Values: []string{"x", "y", "z"}},
+			&spec.Proc{Name: "pc", Kind: spec.KParamComb, Ports: []string{"u", "v"}},
+			&spec.Proc{Name: "sweep", Kind: spec.KCmd, Cmd: spec.BuildCmd("sweep", nil, o1, []string{"u", "v"}, nil, nil), Outs: []*spec.Out{{Port: "out", Pattern: "sweep_{p:u}_{p:v}.out"}}},
+			&spec.Proc{Name: "after", Kind: spec.KCmd, Cmd: spec.BuildCmd("after", in, o1, nil, nil, nil)})
+		s.Conns = append(s.Conns, &spec.Conn{From: "ps1.out", To: "pc.u", Param: true}, &spec.Conn{From: "ps2.out", To: "pc.v", Param: true},
+			&spec.Conn{From: "pc.u", To: "sweep.u", Param: true}, &spec.Conn{From: "pc.v", To: "sweep.v", Param: true}, &spec.Conn{From: "sweep.out", To: "after.in"})
+		s.Run = spec.Run{Mode: "runto", Targets: []string{"sweep"}}
+		out = append(out, s)
+	}
+	// a component with its own temp directory (FileSplitter) between processes
+	{
+		s := mk("splitter", 2)
+		for k, f := range s.Procs[0].Files {
+			s.Sources[f] = strings.Repeat(fmt.Sprintf("line of %d\n", k), 5)
+		}
+		s.Procs = append(s.Procs, &spec.Proc{Name: "SP", Kind: spec.KSplitter, Lines: 2},
+			&spec.Proc{Name: "use", Kind: spec.KCmd, Cmd: spec.BuildCmd("use", in, o1, nil, nil, map[string]string{"sleep": "20"})})
+		s.Conns = append(s.Conns, &spec.Conn{From: "src.out", To: "SP.file"}, &spec.Conn{From: "SP.split_file", To: "use.in"})
+		out = append(out, s)
+	}
 	// issue #81 diamond: more tasks per process than buffer slots
 	for _, n := range []int{4, 9} {
 		s := mk(fmt.Sprintf("diamond81_%d", n), n)
